@@ -2,5 +2,5 @@
 # usage: tools/seedcheck.sh <patch.diff> <Cxx> : applies a seeded patch to a scratch copy of /repo and runs the property's quick check on it
 set -e
 rm -rf /scratch/seedrun && mkdir -p /scratch/seedrun && rsync -a --exclude target --exclude .git --exclude trees /repo/ /scratch/seedrun/
-(cd /scratch/seedrun && patch -p1 -s < "$1")
+P=$(realpath "$1"); (cd /scratch/seedrun && patch -p1 -s < "$P")
 cd /verif && bin/check "$2" --repo /scratch/seedrun --no-evidence 2>&1 | cut -c1-260
